@@ -293,8 +293,8 @@ func C11GenFieldString(t *rapid.T, label string) ([]byte, string) {
 		var c string
 		b, c = Bytes256(t, label)
 		cls = "catalogue:" + c
-	case 4: // +-sqrt(-1), +-1/sqrt(-1)-ish specials where r = i*t^2 hits -1, 1, d ...
-		v := rapid.SampledFrom([]*big.Int{ref.SqrtM1, ref.FNeg(ref.SqrtM1), ref.D, ref.FNeg(ref.D), ref.FInv(ref.D)}).Draw(t, label+"_sp")
+	case 4: // values where an intermediate of MAP degenerates
+		v := rapid.SampledFrom(c11MapSpecials()).Draw(t, label+"_sp")
 		b = ref.ToLE(v, 32)
 		cls = "special"
 	default:
@@ -307,4 +307,27 @@ func C11GenFieldString(t *rapid.T, label string) ([]byte, string) {
 		cls += "|bit255"
 	}
 	return b, cls
+}
+
+// c11MapSpecials lists field elements t for which an intermediate of RFC 9496
+// MAP is 0 or otherwise special: with r = i*t^2, the denominator
+// v = (-1 - r*d)*(r + d) vanishes at r = -1/d and r = -d (both have square
+// roots t because i, d are both non-squares), so SQRT_RATIO_M1 is called with
+// v = 0; plus +-i, +-d, 1/d, +-1.
+var c11MapSpecialsCache []*big.Int
+
+func c11MapSpecials() []*big.Int {
+	if c11MapSpecialsCache != nil {
+		return c11MapSpecialsCache
+	}
+	one := big.NewInt(1)
+	out := []*big.Int{ref.SqrtM1, ref.FNeg(ref.SqrtM1), ref.D, ref.FNeg(ref.D), ref.FInv(ref.D), one, ref.FNeg(one)}
+	iInv := ref.FInv(ref.SqrtM1)
+	for _, r := range []*big.Int{ref.FNeg(ref.FInv(ref.D)), ref.FNeg(ref.D), ref.FNeg(one), one} {
+		if t, ok := ref.FSqrt(ref.FMul(r, iInv)); ok { // t^2 = r/i
+			out = append(out, t, ref.FNeg(t))
+		}
+	}
+	c11MapSpecialsCache = out
+	return out
 }
